@@ -1,9 +1,18 @@
 import StoneVerif.Model.IrCheck
 import StoneVerif.Lemmas.IrCheck
-/-! Property theorems for C10 (accepted defaults and computed examples are valid for the generated classes). -/
+/-! Property theorems for C10 (accepted defaults and computed examples are valid for the generated classes).
+
+`Model/IrCheck.lean` is the compile-time side (`_create_struct_field`, `_populate_field_defaults`,
+`data_types.<Type>.check` / `.check_example`, the reference-free part of `_compute_example*`,
+`_generate_python_value`); `Model/Rt/*` is the runtime of the generated classes.  `E : Ext` are the
+external calls both sides make (float arithmetic, the runtime's whole-string pattern match), `C : CExt`
+the ones only the compiler makes (`re.match` = prefix match, `float(str)`, `strptime`). -/
 set_option linter.unusedSimpArgs false
+set_option linter.unusedVariables false
 namespace StoneVerif.C10
 open StoneVerif.Rt StoneVerif.IrCheck
+
+/-! ## 1. width limits -/
 
 /-- The compile-time types and the runtime validators use the same width limits (over the translator's
 output: editing `maximum` of `Int32` in stone/ir/data_types.py, or `default_maximum` in
@@ -11,11 +20,250 @@ stone_validators.py, breaks this theorem), so the model's compile-time lookup an
 `validatorOf` makes for the generated validator give the same bounds. -/
 theorem default_bounds_agree :
     Tables.irIntBounds = Tables.rtIntBounds ∧ Tables.irFloatBounds = Tables.rtFloatBounds ∧
-    (∀ cls, irIntBounds cls = intDefaults cls) ∧ (∀ cls, irFloatBounds cls = floatDefaults cls) := by
-  have h1 : Tables.irIntBounds = Tables.rtIntBounds := by decide
-  have h2 : Tables.irFloatBounds = Tables.rtFloatBounds := by decide
-  refine ⟨h1, h2, ?_, ?_⟩
-  · intro cls; simp [irIntBounds, intDefaults, h1]
-  · intro cls; simp [irFloatBounds, floatDefaults, h2]
+    (∀ cls, irIntBounds cls = intDefaults cls) ∧ (∀ cls, irFloatBounds cls = floatDefaults cls) :=
+  ⟨by decide, by decide, irIntBounds_eq, irFloatBounds_eq⟩
+
+/-! ## 2. an accepted default is accepted by the generated class
+
+Full statement (FALSE of the model and of the code, see the three witnesses below):
+
+    theorem default_valid (hd : fieldDefault E C us t lit = .ok d) (hvt : validatorOf t = some vt)
+        (hv : pyOfStored us t d = some v) : ∃ v', validate E env vt v = .ok v' ∧ acceptedAs E v v'
+
+It needs (a) a law relating the compile-time pattern test to the runtime one — `re.match(p, s)` is a
+prefix match, the runtime anchors the pattern at both ends, so the law does not hold of the real
+external calls (D12) — and (b) the exclusion of Timestamp and Bytes, whose default stays the text of the
+literal while the runtime wants a datetime / bytes object. -/
+
+/-- Every default the compiler accepts for a field whose type involves no Timestamp / Bytes is accepted by
+the validator the generated class has for the field, and comes back unchanged (a number in a float
+position as the float of that number) — provided the compile-time pattern test implies the runtime one.
+`unionsAgree` (checked by the driver on every real environment): the classes of each union chain exist. -/
+theorem default_valid_partial (E : Ext) (C : CExt) (us : List CUnion) (env : Env) (hU : unionsAgree us env = true)
+    (t : IrTy) (lit d : Lit) (vt : PTy) (v : PyVal)
+    (hts : noTextual t = true)
+    (hpat : ∀ p s, patternOf t = some p → C.prefixMatch p s = true → E.patMatch p s = true)
+    (hd : fieldDefault E C us t lit = .ok d) (hvt : validatorOf t = some vt) (hv : pyOfStored us t d = some v) :
+    ∃ v', validate E env vt v = .ok v' ∧ acceptedAs E v v' :=
+  check_valid E C us env hU t d vt v hts hpat (fieldDefault_check hd) hvt hv
+
+/-- Without any assumption on the external calls: every type that carries no pattern (Boolean, the integer
+and float types with their limits, String with length bounds, unions, aliases of those). -/
+theorem default_valid_nopattern (E : Ext) (C : CExt) (us : List CUnion) (env : Env) (hU : unionsAgree us env = true)
+    (t : IrTy) (lit d : Lit) (vt : PTy) (v : PyVal)
+    (hts : noTextual t = true) (hnp : patternOf t = none)
+    (hd : fieldDefault E C us t lit = .ok d) (hvt : validatorOf t = some vt) (hv : pyOfStored us t d = some v) :
+    ∃ v', validate E env vt v = .ok v' ∧ acceptedAs E v v' :=
+  default_valid_partial E C us env hU t lit d vt v hts (by intro p s h; simp [hnp] at h) hd hvt hv
+
+/-- The check the compiler runs is the one the property speaks of: `checkDefault` succeeds exactly when
+`fieldDefault` stores something. -/
+theorem checkDefault_iff (E : Ext) (C : CExt) (us : List CUnion) (t : IrTy) (lit : Lit) :
+    checkDefault E C us t lit = .ok () ↔ ∃ d, fieldDefault E C us t lit = .ok d := by
+  unfold checkDefault
+  cases fieldDefault E C us t lit <;> simp [Except.map]
+
+/-- The float coercion of `_populate_field_defaults`: whatever literal is written for a field that is
+literally Float32 / Float64, the stored default is a float (so the generated class holds a float). -/
+theorem default_float_coerced (E : Ext) (C : CExt) (us : List CUnion) (cls : String) (mn mx : Option FBits) (lit d : Lit)
+    (hd : fieldDefault E C us (.float cls mn mx) lit = .ok d) : ∃ x, d = .flt x := by
+  simp only [fieldDefault] at hd
+  cases lit with
+  | null => simp [ccrash] at hd
+  | tagref _ => simp [ccrash] at hd
+  | flt x => exact ⟨x, (match_check_ok hd).2.symm⟩
+  | int n =>
+    cases hx : E.fltOfInt n with
+    | none => simp [hx, ccrash] at hd
+    | some x => simp only [hx] at hd; exact ⟨x, (match_check_ok hd).2.symm⟩
+  | bool b =>
+    cases hx : E.fltOfInt (if b = true then 1 else 0) with
+    | none => simp [hx, ccrash] at hd
+    | some x => simp only [hx] at hd; exact ⟨x, (match_check_ok hd).2.symm⟩
+  | str s =>
+    cases hx : C.fltOfStr s with
+    | none => simp [hx, invalid] at hd
+    | some x => simp only [hx] at hd; exact ⟨x, (match_check_ok hd).2.symm⟩
+
+/-! ### concrete external calls for the witnesses and examples
+
+`patMatch` / `prefixMatch` are the answers of `re` on the inputs the witnesses use
+(`\A(?:a)\Z` does not match "ab", `re.match("a", "ab")` does; "[a-z]{2}" against "abc" likewise). -/
+
+def exE : Ext where
+  fltLt a b := a < b            -- adequate for the non-negative floats of the examples
+  fltIsNan _ := false
+  fltIsInf _ := false
+  fltOfInt n := if n = 1 then some 4607182418800017408 else if n = 0 then some 0 else none
+  patMatch p s := (p == "a" && s == "a") || (p == "[a-z]{2}" && s == "ab")
+  b64enc h := h
+  b64dec s := some (some s)
+  strftime _ _ := ""
+  strptime _ _ := none
+  md5 s := s
+  reSearch _ _ := none
+  strOfInt _ := ""
+  strOfFlt _ := ""
+
+def exC : CExt where
+  prefixMatch p s := (p == "a" && (s == "a" || s == "ab")) || (p == "[a-z]{2}" && (s == "ab" || s == "abc"))
+  fltOfStr _ := none
+  strptimeOk f s := f == "%Y" && s == "2020"
+
+def emptyEnv : Env := { structs := [], unions := [] }
+
+/-- D12: `f String(pattern="a") = "ab"` is accepted at compile time (prefix match) and the generated class
+refuses its own default (whole-string match). The hypothesis `hpat` of `default_valid_partial` fails for it. -/
+theorem default_pattern_witness :
+    fieldDefault exE exC [] (.str none none (some "a")) (.str "ab") = .ok (.str "ab") ∧
+    pyOfStored [] (.str none none (some "a")) (.str "ab") = some (.str "ab") ∧
+    validatorOf (.str none none (some "a")) = some (.str {} none none (some "a")) ∧
+    validate exE emptyEnv (.str {} none none (some "a")) (.str "ab") = verr "did not match pattern" ∧
+    exC.prefixMatch "a" "ab" = true ∧ exE.patMatch "a" "ab" = false := by
+  exact ⟨rfl, rfl, rfl, rfl, by decide, by decide⟩
+
+/-- A Timestamp default is accepted (the text parses with the format) and stays text; the generated class
+wants a datetime and refuses it. -/
+theorem default_timestamp_witness :
+    fieldDefault exE exC [] (.ts "%Y") (.str "2020") = .ok (.str "2020") ∧
+    pyOfStored [] (.ts "%Y") (.str "2020") = some (.str "2020") ∧
+    validatorOf (.ts "%Y") = some (.ts {} "%Y") ∧
+    validate exE emptyEnv (.ts {} "%Y") (.str "2020") = verr "expected timestamp" := by
+  exact ⟨rfl, rfl, rfl, rfl⟩
+
+/-- A Bytes default is accepted (any text) and stays text; the generated class wants bytes and refuses it. -/
+theorem default_bytes_witness :
+    fieldDefault exE exC [] .bytes (.str "abc") = .ok (.str "abc") ∧
+    pyOfStored [] .bytes (.str "abc") = some (.str "abc") ∧
+    validatorOf .bytes = some (.bytes {}) ∧
+    validate exE emptyEnv (.bytes {}) (.str "abc") = verr "expected bytes" := by
+  exact ⟨rfl, rfl, rfl, rfl⟩
+
+/-! ### non-vacuity: boundary literals, ints for floats, patterns that are matched whole -/
+
+example : fieldDefault exE exC [] (.int "Int32" none none) (.int 2147483647) = .ok (.int 2147483647) ∧
+    fieldDefault exE exC [] (.int "Int32" none none) (.int 2147483648) = invalid "not within range" ∧
+    fieldDefault exE exC [] (.int "Int32" none (some 5)) (.int 6) = invalid "greater than max_value" ∧
+    fieldDefault exE exC [] (.int "UInt64" none none) (.bool true) = .ok (.bool true) := by
+  exact ⟨rfl, rfl, rfl, rfl⟩
+
+example : fieldDefault exE exC [] (.float "Float64" none none) (.int 1) = .ok (.flt 4607182418800017408) ∧
+    fieldDefault exE exC [] (.alias "ns.F" none (.float "Float64" none none)) (.int 1) = .ok (.int 1) ∧
+    fieldDefault exE exC [] (.float "Float64" none none) .null = ccrash "TypeError" ∧
+    fieldDefault exE exC [] (.nullable (.int "Int32" none none)) (.int 1) =
+      invalid "Field cannot be a nullable type and have a default specified" ∧
+    fieldDefault exE exC [] (.list .bool none none) .null = ccrash "NotImplementedError" := by
+  exact ⟨rfl, rfl, rfl, rfl, rfl⟩
+
+/-- a compiler whose pattern test is the runtime's (what repairing D12 gives): the law holds -/
+def anchoredC : CExt := { exC with prefixMatch := exE.patMatch }
+
+example : ∃ v', validate exE emptyEnv (.str {} none none (some "[a-z]{2}")) (.str "ab") = .ok v' ∧ acceptedAs exE (.str "ab") v' :=
+  default_valid_partial exE anchoredC [] emptyEnv (by decide) (.str none none (some "[a-z]{2}")) (.str "ab") (.str "ab") _ _
+    (by decide) (fun _ _ _ h => h) rfl rfl rfl
+
+/-! ## 3. reading a defaulted field that was never set -/
+
+/-- `Attribute.__get__`: an unset field that is not nullable reads as its default. -/
+theorem default_read (env : Env) (cls name : String) (slots : List (String × PyVal)) (f : FieldDef) (d : PyVal)
+    (hf : (env.struct? cls).bind (·.field? name) = some f)
+    (hd : f.dflt = some d) (hnn : f.attrNullable = false) (hu : lookupSlot f.name slots = none) :
+    getField env (.struct cls slots) name = .ok d := by
+  simp [getField, hf, attrGet, hu, hnn, hd]
+
+/-- For the attribute python_types generates from a field whose default the compiler accepted: the
+attribute is not nullable (a default on a nullable field is refused), its `default` is the declared
+default (`_generate_python_value`), and reading the unset field of any instance returns exactly it. -/
+theorem default_read_generated (E : Ext) (C : CExt) (us : List CUnion) (cf : CField) (lit d : Lit) (fd : FieldDef)
+    (env : Env) (cls : String) (slots : List (String × PyVal))
+    (hacc : fieldDefault E C us cf.ty lit = .ok d) (hcf : cf.dflt = some d) (hfd : fieldDefOfC us cf = some fd)
+    (hf : (env.struct? cls).bind (·.field? cf.name) = some fd) (hu : lookupSlot cf.name slots = none) :
+    ∃ v, pyOfStored us cf.ty d = some v ∧ fd.dflt = some v ∧ fd.attrNullable = false ∧
+      getField env (.struct cls slots) cf.name = .ok v := by
+  obtain ⟨vt, _, hname, _, hnull, _, _, hdf⟩ := fieldDefOfC_inv hfd
+  simp only [hcf] at hdf
+  obtain ⟨v, hp, hdv⟩ := hdf
+  have hnn : fd.attrNullable = false := by rw [hnull]; exact fieldDefault_not_nullable hacc
+  exact ⟨v, hp, hdv, hnn, default_read env cls cf.name slots fd v hf hdv hnn (by rw [hname]; exact hu)⟩
+
+/-! ## 4. tag defaults: a ready union instance -/
+
+/-- A tag default the compiler accepts is the ready instance `<Declaring class>('<tag>')` — an instance of
+the field's union class or of the ancestor that declares the tag — and the field's validator accepts it
+by `validate_type_only` (what assignment runs for a union-typed field) and by `validate`. -/
+theorem default_tag_valid (E : Ext) (C : CExt) (us : List CUnion) (env : Env) (hU : unionsAgree us env = true)
+    (cls : String) (lit d : Lit) (v : PyVal)
+    (hd : fieldDefault E C us (.union cls) lit = .ok d) (hv : pyOfStored us (.union cls) d = some v) :
+    (∃ c tag, d = .tagref tag ∧ v = .union c tag .none ∧ unionTypeOk env cls v = true) ∧
+    validateTypeOnly env (.union {} cls) v = .ok () ∧ validate E env (.union {} cls) v = .ok v := by
+  have hc := fieldDefault_check hd
+  obtain ⟨h1, h2⟩ := check_union_valid E C us env hU cls d v hc hv
+  refine ⟨?_, h2, h1⟩
+  cases d <;> simp [check] at hc
+  rename_i tag
+  obtain ⟨c, u, dc, hc', hu, hdc, rfl⟩ := pyOfStored_tagref hv
+  simp [unionOfTy] at hc'; subst hc'
+  exact ⟨dc, tag, rfl, rfl, tag_instance_typeOk hU hu hdc⟩
+
+/-! ## 5. assigning the default back -/
+
+/-- `setattr(obj, f, Cls.f.default)` is accepted for the attribute generated from an accepted default
+(same two hypotheses as `default_valid_partial`); what is stored is the default (a number in a float
+position as the float). -/
+theorem default_assign_partial (E : Ext) (C : CExt) (us : List CUnion) (env : Env) (hU : unionsAgree us env = true)
+    (cf : CField) (lit d : Lit) (fd : FieldDef) (slots : List (String × PyVal))
+    (hts : noTextual cf.ty = true)
+    (hpat : ∀ p s, patternOf cf.ty = some p → C.prefixMatch p s = true → E.patMatch p s = true)
+    (hacc : fieldDefault E C us cf.ty lit = .ok d) (hcf : cf.dflt = some d) (hfd : fieldDefOfC us cf = some fd) :
+    ∃ v v', fd.dflt = some v ∧ attrSet E env fd slots v = .ok (setSlot fd.name v' slots) ∧ acceptedAs E v v' := by
+  obtain ⟨vt, hvt, hname, hty, hnull, hud, _, hdf⟩ := fieldDefOfC_inv hfd
+  simp only [hcf] at hdf
+  obtain ⟨v, hp, hdv⟩ := hdf
+  have hnn : fd.attrNullable = false := by rw [hnull]; exact fieldDefault_not_nullable hacc
+  have hc := fieldDefault_check hacc
+  cases hu : cf.ty.isUserDefinedLit with
+  | true =>
+    obtain ⟨cls, hcls⟩ := check_userDefined_union hc (fieldDefault_not_nullable hacc) hu
+    rw [hcls] at hc hp hvt
+    simp [validatorOf] at hvt
+    obtain ⟨_, h2⟩ := check_union_valid E C us env hU cls d v hc hp
+    refine ⟨v, v, hdv, ?_, Or.inl rfl⟩
+    simp [attrSet, hnn, hud, hu, hty, ← hvt, h2, bind, Except.bind, pure, Except.pure]
+  | false =>
+    obtain ⟨v', h1, h2⟩ := check_valid E C us env hU cf.ty d vt v hts hpat hc hvt hp
+    refine ⟨v, v', hdv, ?_, h2⟩
+    simp [attrSet, hnn, hud, hu, hty, h1, bind, Except.bind, pure, Except.pure]
+
+/-! ### non-vacuity: a tag inherited from the parent union, read and assigned through the generated tables -/
+
+def exUnions : List CUnion :=
+  [ { cls := "ns.Color", chain := [("ns.Color", [{ name := "red", ty := .void }, { name := "green", ty := .int "Int32" none none }])],
+      catchAll := some "other" },
+    { cls := "ns.Tint", chain := [("ns.Color", [{ name := "red", ty := .void }, { name := "green", ty := .int "Int32" none none }]),
+                                  ("ns.Tint", [{ name := "pale", ty := .void }])], catchAll := some "other" } ]
+
+def exApi : CApi :=
+  { structs := [ { cls := "ns.S", chain := [("ns.S", [{ name := "f", ty := .union "ns.Tint", dflt := some (.tagref "red") },
+                                                      { name := "n", ty := .float "Float64" none none, dflt := some (.flt 0) }])] } ],
+    unions := exUnions }
+
+def exEnv : Env := (envOfC exApi).getD emptyEnv
+
+example : (envOfC exApi).isSome = true ∧ unionsAgree exUnions exEnv = true := by decide
+
+example : fieldDefault exE exC exUnions (.union "ns.Tint") (.tagref "red") = .ok (.tagref "red") ∧
+    fieldDefault exE exC exUnions (.union "ns.Tint") (.tagref "green") = invalid "invalid reference to non-void option" ∧
+    fieldDefault exE exC exUnions (.union "ns.Tint") (.tagref "nosuch") = invalid "invalid reference to unknown tag" ∧
+    fieldDefault exE exC exUnions (.union "ns.Tint") (.int 1) = ccrash "AssertionError" ∧
+    -- the ready instance belongs to the class that declares the tag (the parent)
+    pyOfStored exUnions (.union "ns.Tint") (.tagref "red") = some (.union "ns.Color" "red" .none) ∧
+    pyOfStored exUnions (.union "ns.Tint") (.tagref "pale") = some (.union "ns.Tint" "pale" .none) :=
+  ⟨rfl, rfl, rfl, rfl, rfl, rfl⟩
+
+example : getField exEnv (.struct "ns.S" []) "f" = .ok (.union "ns.Color" "red" .none) ∧
+    getField exEnv (.struct "ns.S" []) "n" = .ok (.flt 0) ∧
+    (setField exE exEnv (.struct "ns.S" []) "f" (.union "ns.Color" "red" .none)).bind (getField exEnv · "f")
+      = .ok (.union "ns.Color" "red" .none) :=
+  ⟨rfl, rfl, rfl⟩
 
 end StoneVerif.C10
